@@ -8,6 +8,12 @@ K4 == { <<1, 1>>, <<1, 2>>, <<2, 1>>, <<2, 2>> }
 K3 == { <<1>>, <<1, 1>>, <<2, 1>> }
 V2 == { "aa", "bb" }
 V1 == { "aa" }
-\* the view hides bookkeeping that does not influence the future
-MCView == <<disk, top, cache, trieC, expanded, latestC, height, roots, contAt, G, drops, deadAt, panic>>
+\* The view keeps what the future and the invariants depend on: in ModeLatest the two store layers only matter
+\* merged; roots / contents of heights that are no longer retained and death heights of nodes that are not
+\* stored as inactive records are history.
+MCView == LET v    == View(top, disk)
+              kept == M!Retained(GCMode, height, G)
+          IN  <<IF GCMode THEN <<disk, top>> ELSE v, cache, trieC, expanded, latestC, height,
+                [h \in kept |-> roots[h]], G, drops,
+                [n \in {m \in DOMAIN v : ~v[m].active} |-> IF n \in DOMAIN deadAt THEN deadAt[n] ELSE -1], panic>>
 =============================================================================
